@@ -18,6 +18,9 @@ pub fn run(ctx: &mut Ctx, prop: &str) {
     if prop == "C03" {
         ipa_stretched(ctx);
     }
+    if prop == "C14" || prop == "C17" {
+        stream_surplus_points(ctx, prop);
+    }
 }
 
 /// the scheme's random oracle (hash-and-retry into the scalar field)
@@ -135,6 +138,101 @@ fn ipa_stretched(ctx: &mut Ctx) {
             }
             Ok(Err(e)) | Err(e) => {
                 ctx.rep.notes.push(format!("{}: attack could not be mounted ({})", id, e));
+            }
+        }
+    }
+}
+
+/// Streaming KZG, MORE evaluation points than the verifier key was made for (`max_eval_points`). The provers refuse
+/// such a request; the verifier's MSMs over its `max_eval_points + 1` G2 powers / `max_eval_points` G1 powers
+/// silently truncate the vanishing polynomial and the interpolant, and the truncated equation has solutions with
+/// false evaluations: with one surplus point, two linear conditions on three claimed values. The forgery below is
+/// computed from the public key only. It must be refused.
+fn stream_surplus_points(ctx: &mut Ctx, prop: &str) {
+    use ark_bls12_381::Bls12_381;
+    use ark_poly_commit::streaming_kzg::{CommitterKey, EvaluationProof, VerifierKey};
+    type E = Bls12_381;
+    let n_cases = ctx.n(4, 24);
+    for i in 0..n_cases {
+        let id = format!("{}/attack-stream-surplus-points/{}", prop, i);
+        if !ctx.selected(&id) {
+            continue;
+        }
+        let mut rng = rng_for(ctx.seed, "attack-stream-surplus-points", i as u64);
+        let mep = 2usize; // the key supports two points; three are presented
+        let deg = 4 + i % 5;
+        let r = guarded(|| -> Result<(bool, bool, String), String> {
+            let ck = CommitterKey::<E>::new(deg + 2, mep, &mut rng);
+            let vk = VerifierKey::from(&ck);
+            let f: Vec<Fr> = (0..=deg).map(|_| Fr::rand(&mut rng)).collect();
+            let c = ck.commit(&f);
+            let pts: Vec<Fr> = (0..3).map(|_| Fr::rand(&mut rng)).collect();
+            let (a0, a1, a2) = (pts[0], pts[1], pts[2]);
+            // Z = X^3 + z2 X^2 + z1 X + z0; the verifier keeps z0 + z1 X + z2 X^2
+            let z2 = -(a0 + a1 + a2);
+            let z1 = a0 * a1 + a0 * a2 + a1 * a2;
+            let z0 = -(a0 * a1 * a2);
+            if z2.is_zero() {
+                return Err("degenerate points".into());
+            }
+            // f = h·Z' + r, deg r <= 1 (long division by the quadratic Z')
+            let mut rem = f.clone();
+            let mut h = vec![Fr::zero(); f.len().saturating_sub(2)];
+            let z2i = z2.inverse().unwrap();
+            for k in (2..rem.len()).rev() {
+                let q = rem[k] * z2i;
+                h[k - 2] = q;
+                rem[k] -= q * z2;
+                rem[k - 1] -= q * z1;
+                rem[k - 2] -= q * z0;
+            }
+            let (r0, r1) = (rem[0], rem[1]);
+            // Lagrange basis over the three points, coefficients 0 and 1 (the verifier keeps only those of the interpolant)
+            let lag = |j: usize| -> (Fr, Fr) {
+                let (x, y, w) = (pts[j], pts[(j + 1) % 3], pts[(j + 2) % 3]);
+                let d = ((x - y) * (x - w)).inverse().unwrap();
+                (y * w * d, -(y + w) * d) // (X-y)(X-w)/d: constant y·w, linear -(y+w)
+            };
+            let (l0, l1, l2) = (lag(0), lag(1), lag(2));
+            // choose v2 freely, solve i0 = r0, i1 = r1 for v0, v1
+            let v2 = Fr::rand(&mut rng);
+            let (b0, b1) = (r0 - v2 * l2.0, r1 - v2 * l2.1);
+            let det = l0.0 * l1.1 - l1.0 * l0.1;
+            if det.is_zero() {
+                return Err("singular".into());
+            }
+            let di = det.inverse().unwrap();
+            let v0 = (b0 * l1.1 - l1.0 * b1) * di;
+            let v1 = (l0.0 * b1 - b0 * l0.1) * di;
+            let horner = |p: &[Fr], x: Fr| p.iter().rev().fold(Fr::zero(), |acc, c| acc * x + c);
+            let truth = [horner(&f, a0), horner(&f, a1), horner(&f, a2)];
+            let claimed = vec![v0, v1, v2];
+            let is_false = claimed[..] != truth[..];
+            // π = commit(h), obtained through the public API as the opening of h·(X-α) at its root α
+            let alpha = Fr::rand(&mut rng);
+            let mut g = vec![Fr::zero(); h.len() + 1];
+            for (k, hk) in h.iter().enumerate() {
+                g[k + 1] += hk;
+                g[k] -= *hk * alpha;
+            }
+            let (_zero, pi) = ck.open(&g, &alpha);
+            let eta = Fr::rand(&mut rng);
+            let accepted = vk.verify_multi_points(&[c], &pts, &[claimed], &EvaluationProof::<E>(pi.0), &eta).is_ok();
+            Ok((accepted, is_false, format!("key for {} points, 3 points presented, degree {}", mep, deg)))
+        });
+        match r {
+            Ok(Ok((accepted, is_false, desc))) => {
+                if accepted && is_false {
+                    ctx.rep.expect_fail(&id, "streaming_kzg/false-evaluations-accepted/surplus-points",
+                        &format!("verify_multi_points accepted FALSE evaluations when given more points than the key supports ({})", desc),
+                        format!("# scheme: streaming_kzg\n# case: {}\n# seed: {}\n# {}\n# forgery from public data: claimed values solve the TRUNCATED verification equation\n# rerun: .build/cargo/debug/pcv-harness {} --seed {} --only {}\n", id, ctx.seed, desc, prop, ctx.seed, id));
+                }
+                ctx.rep.case(&format!("attack stream surplus points {} accepted={} false-claim={}", desc, accepted, is_false), Some(format!("attack-stream-surplus/{}", i % 5)));
+            }
+            Ok(Err(e)) => ctx.rep.notes.push(format!("{}: attack could not be mounted ({})", id, e)),
+            Err(_abort) => {
+                // the verifier aborted: a refusal
+                ctx.rep.case("attack stream surplus points: verifier aborted (refusal)", Some("attack-stream-surplus/abort".into()));
             }
         }
     }
